@@ -8,6 +8,15 @@ class C44(Prop):
     n_quick = 2000
     n_thorough = 100000
     shard = 1000
+    ready = True
+    manifest = dict(
+        text="Coq theorems (all lists of any element type and length < 2^62, all parameter strings) over a Gallina model of "
+             "paginate/paginate2 with Go's 64-bit wrap-around explicit: pages concatenate to the list, page size bound, "
+             "past-the-end pages empty, exact accept/reject syntax of the parameters, no overflow, no slice panic. The model "
+             "is tied to the code by running the real paginate on generated inputs and comparing inside Coq.",
+        note="Trusted: Coq kernel+VM, the in-package driver, that Go int is 64 bit. The reflect-based slicing is modelled as "
+             "items[lo:hi] with a panic when bounds are out of order.",
+        technique="Coq proof by induction over the page index (list chunking) + nia for the 64-bit bounds; correspondence by vm_compute")
     rule = ("generated (len, itemsPerPage, page) triples: boundary strings (signs, underscores, non-ASCII digits, "
             "2^31, 2^63, 2^64 neighbours) and random ones run through the real api.paginate on the list [0..len); "
             "sweeps run every page 0..pageCount of one list. Non-trivial = a non-empty page / a sweep with >1 page; "
